@@ -328,8 +328,8 @@ static void runCase(const Case& cs) {
     for (int i = 0; i < cs.len; ++i) ns.push_back(&graph.addNode([cp, i]() { cbody(cp, i); }));
     for (int i = 0; i + 1 < cs.len; ++i) {
       dispenso::Node& leaf = graph.addNode([]() {});
-      ns[static_cast<size_t>(i + 1)]->dependsOn(*ns[static_cast<size_t>(i)]);
       leaf.dependsOn(*ns[static_cast<size_t>(i)]);
+      ns[static_cast<size_t>(i + 1)]->dependsOn(*ns[static_cast<size_t>(i)]);
     }
     setAllNodesIncomplete(graph);  // declared only as a friend of Node: found by ADL
     dispenso::ConcurrentTaskSetExecutor ex;
@@ -404,7 +404,8 @@ static void report(const Case& cs, const char* status) {
     while (j + 1 < cs.len && g_rec[j + 1].fa != 0 && g_rec[j + 1].how == g_rec[i].how &&
            ((g_rec[i].how == 1 || g_rec[i].how == 3)
                 ? (g_rec[j + 1].tid == g_rec[j].tid && g_rec[j + 1].nS == g_rec[j].nS + 1 && (g_rec[i].how == 3 || g_rec[j + 1].rec == g_rec[j].rec))
-                : (g_rec[j + 1].nS == g_rec[j].nS && g_rec[j + 1].nW == g_rec[j].nW && g_rec[j + 1].g == g_rec[j].g)))
+                : (g_rec[j + 1].nS == g_rec[j].nS && g_rec[j + 1].g == g_rec[j].g &&
+                   (g_rec[j + 1].nW == g_rec[j].nW || (cs.site == WAITNEST && g_rec[j + 1].tid == g_rec[j].tid && g_rec[j + 1].nW == g_rec[j].nW + 1)))))
       ++j;
     const Rec &a = g_rec[i], &b = g_rec[j];
     long per = j > i ? (b.bytes - a.bytes) / (j - i) : 0;
